@@ -22,7 +22,7 @@ CASE_TIMEOUT = {"quick": 900, "thorough": 2400}
 SHARD_TIMEOUT = {"quick": 1500, "thorough": 7200}
 ASSUMPTIONS = ["generated rasters satisfy the property's pre-condition (one-pixel-wide, 8-connected, minimal junction pixels) when "
                "the number of enclosed regions equals the number of generating cells"]
-FIX = "/repo/tests/data"
+FIX = "/repo"
 
 
 def anchors():
@@ -36,8 +36,10 @@ def anchors():
 def cases(seed, tier):
     q = tier == "quick"
     out = [{"fam": "gen", "seed": [seed, 15, i]} for i in range(14 if q else 200)]
-    out += [{"fam": "fixture", "file": f, "seed": [seed, 15, 10 ** 5 + j]} for j, f in
-            enumerate(["test_nonzero.tif", "experimental/exp_1.tif"])]
+    shipped = ["tests/data/test_nonzero.tif", "tests/data/experimental/exp_1.tif", "examples/data/in_vivo/t_1.tif"]
+    if not q:
+        shipped += [f"examples/data/in_vivo/t_{i}.tif" for i in (0, 2, 3, 4)]
+    out += [{"fam": "fixture", "file": f, "seed": [seed, 15, 10 ** 5 + j]} for j, f in enumerate(shipped)]
     return out
 
 
